@@ -58,7 +58,7 @@ RowFraming ==
      LET row == GridLayer.rows[y]
          body == Concat([i \in 1..Len(row) |-> EncodeCell(row[i])])
          enc == EncodeRow(row, s.w)
-         r == DecodeRow(enc \o <<1, 0, 65, 7>>, 0, s.w, <<>>, 0) IN
+         r == DecodeRow(enc \o <<1, 0, 65, 7>>, 0, s.w) IN
      /\ enc = body \o (IF Len(row) < s.w THEN <<0, 192>> ELSE <<>>)
      /\ r.ok /\ r.row = row /\ r.o = Len(enc)
 \* the short form is used exactly when every field fits a byte, and both forms have the documented sizes
